@@ -668,8 +668,13 @@ class Polygon(Shape2D):
         q_dot_norm = np.dot(q, self.normal)
         q = q - q_dot_norm[:, np.newaxis] * self.normal
         q_sqs = np.sum(q * q, axis=-1)
-        zero_q = np.isclose(q_sqs, 0)
-        form_factor[zero_q] = self.area
+        # "Zero" relative to the size of the polygon (|q| L < 1e-6); to that order the
+        # amplitude is the area times the phase of the centroid.
+        extent = np.max(np.ptp(self._vertices, axis=0))
+        zero_q = q_sqs * extent**2 < 1e-12
+        form_factor[zero_q] = self.area * np.exp(
+            -1j * np.dot(q[zero_q], self.centroid)
+        )
 
         # Add the contribution over all edges of the face.
         verts = self._vertices
